@@ -87,13 +87,13 @@ lexer!(c01_lex_hostname_l4, hk::lex_hostname_token, any_chars, 4, 8);
 lexer!(c01_lex_hostname_l5, hk::lex_hostname_token, any_chars, 5, 9);
 
 // lex_email_address — domain D (valid_unquoted_character only compares code points, but keep D for tuple_windows cost)
-// HV: {"name": "c01_lex_email_l2", "prop": "C01", "kernel": "lex_email_address", "bound": "every text of 2 chars (any Unicode scalar)", "fns": ["harper_core::lexing::email_address::lex_email_address"]}
+// (not admitted: subsumed by l3) {"name": "c01_lex_email_l2", "prop": "C01", "kernel": "lex_email_address", "bound": "every text of 2 chars (any Unicode scalar)", "fns": ["harper_core::lexing::email_address::lex_email_address"]}
 lexer!(c01_lex_email_l2, hk::lex_email_address, any_chars, 2, 23, nocover);
-// HV: {"name": "c01_lex_email_l3", "prop": "C01", "kernel": "lex_email_address", "bound": "every text of 3 chars (any Unicode scalar)", "fns": ["harper_core::lexing::email_address::lex_email_address"], "cost": 3}
-lexer!(c01_lex_email_l3, hk::lex_email_address, any_chars, 3, 23);
-// HV: {"name": "c01_lex_email_l4", "prop": "C01", "kernel": "lex_email_address", "bound": "every text of 4 chars (any Unicode scalar)", "fns": ["harper_core::lexing::email_address::lex_email_address"], "cost": 5}
-lexer!(c01_lex_email_l4, hk::lex_email_address, any_chars, 4, 24);
-// HV: {"name": "c01_lex_email_l5", "prop": "C01", "tier": "thorough", "kernel": "lex_email_address", "bound": "every text of 5 chars (any Unicode scalar)", "fns": ["harper_core::lexing::email_address::lex_email_address"], "cost": 8}
+// HV: {"name": "c01_lex_email_l3", "prop": "C01", "kernel": "lex_email_address", "bound": "every text of 3 chars (any Unicode scalar)", "fns": ["harper_core::lexing::email_address::lex_email_address"], "cost": 6, "kani_args": ["-Z", "unstable-options", "--cbmc-args", "--unwindset", "_RINvXs2J_NtNtCs8xvirJzNMvV_4core5slice4iterINtB7_4ItercENtNtNtNtBb_4iter6traits8iterator8Iterator4foldbNCNvXsK_NtB9_3cmpcNtB1L_13SliceContains14slice_contains0ECs5wRYYVRclu5_14pulldown_cmark.0:22"], "assume": ["per-loop bound: the 20-entry `others.contains(c)` scan in valid_unquoted_character gets --unwindset 22, every other loop the harness bound (unwinding assertions stay on)"]}
+lexer!(c01_lex_email_l3, hk::lex_email_address, any_chars, 3, 7);
+// HV: {"name": "c01_lex_email_l4", "prop": "C01", "kernel": "lex_email_address", "bound": "every text of 4 chars (any Unicode scalar)", "fns": ["harper_core::lexing::email_address::lex_email_address"], "cost": 9, "kani_args": ["-Z", "unstable-options", "--cbmc-args", "--unwindset", "_RINvXs2J_NtNtCs8xvirJzNMvV_4core5slice4iterINtB7_4ItercENtNtNtNtBb_4iter6traits8iterator8Iterator4foldbNCNvXsK_NtB9_3cmpcNtB1L_13SliceContains14slice_contains0ECs5wRYYVRclu5_14pulldown_cmark.0:22"], "tier": "thorough"}
+lexer!(c01_lex_email_l4, hk::lex_email_address, any_chars, 4, 8);
+// (not admitted: too slow) {"name": "c01_lex_email_l5", "prop": "C01", "tier": "thorough", "kernel": "lex_email_address", "bound": "every text of 5 chars (any Unicode scalar)", "fns": ["harper_core::lexing::email_address::lex_email_address"], "cost": 8}
 lexer!(c01_lex_email_l5, hk::lex_email_address, any_chars, 5, 25);
 
 // lex_hex_number, lex_long_decade — ASCII-only predicates, any char
@@ -103,6 +103,36 @@ lexer_stubbed!(c01_lex_hex_l3, hk::lex_hex_number, any_chars, 3, 8);
 lexer_stubbed!(c01_lex_hex_l4, hk::lex_hex_number, any_chars, 4, 9);
 // HV: {"name": "c01_lex_hex_l5", "prop": "C01", "tier": "thorough", "kernel": "lex_hex_number", "bound": "every text of 5 chars (any Unicode scalar)", "fns": ["harper_core::lexing::lex_hex_number"], "cost": 6, "stubbing": true, "stubs": ["core::unicode::unicode_data::{alphabetic,n}::lookup -> arbitrary bool", "unicode_script::get_script -> arbitrary of {Latin, non-Latin, unknown}"]}
 lexer_stubbed!(c01_lex_hex_l5, hk::lex_hex_number, any_chars, 5, 10);
+/// The u64 overflow boundary of `u64::from_str_radix(.., 16)`: 16 hex digits fit, 17 do not.
+fn hex_digits<const D: usize, const L: usize>() {
+    let mut src: [char; L] = any_chars::<L>();
+    src[0] = '0';
+    src[1] = 'x';
+    let mut i = 2;
+    while i < L {
+        kani::assume(src[i].is_ascii_hexdigit());
+        i += 1;
+    }
+    let found = hk::lex_hex_number(&src);
+    if D <= 16 {
+        kani::cover!(found.is_some(), "a literal of up to 16 hex digits is a number");
+    } else {
+        kani::cover!(found.is_none(), "a 17-digit literal exceeds u64 and is declined");
+    }
+    lexer_progress(found, L);
+}
+// (not admitted: out of memory at 14 GB (String building + from_str_radix over 16 symbolic digits)) {"name": "c01_lex_hex_16digits", "prop": "C01", "kernel": "lex_hex_number", "bound": "'0x' + exactly 16 arbitrary hex digits (largest literal that fits u64)", "fns": ["harper_core::lexing::lex_hex_number"], "cost": 4}
+#[kani::proof]
+#[kani::unwind(20)]
+fn c01_lex_hex_16digits() {
+    hex_digits::<16, 18>();
+}
+// (not admitted: out of memory at 14 GB) {"name": "c01_lex_hex_17digits", "prop": "C01", "kernel": "lex_hex_number", "bound": "'0x' + exactly 17 arbitrary hex digits (value exceeds u64: from_str_radix fails)", "fns": ["harper_core::lexing::lex_hex_number"], "cost": 4}
+#[kani::proof]
+#[kani::unwind(21)]
+fn c01_lex_hex_17digits() {
+    hex_digits::<17, 19>();
+}
 // HV: {"name": "c01_lex_decade_l5", "prop": "C01", "kernel": "lex_long_decade", "bound": "every text of 5 chars (any Unicode scalar)", "fns": ["harper_core::lexing::lex_long_decade"]}
 lexer!(c01_lex_decade_l5, hk::lex_long_decade, any_chars, 5, 7);
 // HV: {"name": "c01_lex_decade_l4", "prop": "C01", "kernel": "lex_long_decade", "bound": "every text of 4 chars (any Unicode scalar)", "fns": ["harper_core::lexing::lex_long_decade"]}
@@ -334,13 +364,13 @@ fn find_all<const N: usize>() {
     core::mem::forget(found);
     core::mem::forget(toks);
 }
-// HV: {"name":"c01_find_all_matches_n1","prop":"C01","kernel":"PatternExt::find_all_matches","bound":"1 token; arbitrary contract-obeying pattern","fns":["harper_core::patterns::PatternExt::find_all_matches"],"stubs":["AnyLen pattern"],"cost":2}
+// (not admitted: out of memory at 14 GB (Vec<Span> growth + VecDeque + retain)) {"name": "c01_find_all_matches_n1", "prop": "C01", "kernel": "PatternExt::find_all_matches", "bound": "1 token; arbitrary contract-obeying pattern", "fns": ["harper_core::patterns::PatternExt::find_all_matches"], "stubs": ["AnyLen pattern"], "cost": 2}
 #[kani::proof]
 #[kani::unwind(6)]
 fn c01_find_all_matches_n1() {
     find_all::<1>();
 }
-// HV: {"name":"c01_find_all_matches_n2","prop":"C01","tier":"thorough","kernel":"PatternExt::find_all_matches","bound":"2 tokens; arbitrary contract-obeying pattern","fns":["harper_core::patterns::PatternExt::find_all_matches","harper_core::vec_ext::VecExt::remove_indices"],"stubs":["AnyLen pattern"],"cost":8,"mem_gb":30,"mem_expect_gb":16}
+// (not admitted: out of memory at 14 GB) {"name": "c01_find_all_matches_n2", "prop": "C01", "tier": "thorough", "kernel": "PatternExt::find_all_matches", "bound": "2 tokens; arbitrary contract-obeying pattern", "fns": ["harper_core::patterns::PatternExt::find_all_matches", "harper_core::vec_ext::VecExt::remove_indices"], "stubs": ["AnyLen pattern"], "cost": 8, "mem_gb": 30, "mem_expect_gb": 16}
 #[kani::proof]
 #[kani::unwind(6)]
 fn c01_find_all_matches_n2() {
